@@ -11,8 +11,8 @@ Text form (one token, for case lines):  pass '/' pass ;  rule ';' rule ;  pre '~
 import struct
 
 OP = dict(PUSH_BYTE=1, PUSH_SHORT=3, NEXT=25, COPY_NEXT=27, PUT_GLYPH8=28, PUT_SUBS8=29, PUT_COPY=30, INSERT=31, DELETE=32, ASSOC=33, CNTXT_ITEM=34, ATTR_SET=35,
-          POP_RET=48, RET_ZERO=49, RET_TRUE=50, PUSH_SLOT_ATTR=40, EQUAL=19, LESS=21, GTR=22)
-SLAT_ADVX, SLAT_SHIFTX = 0, 20
+          ATTR_SET_SLOT=38, POP_RET=48, RET_ZERO=49, RET_TRUE=50, PUSH_SLOT_ATTR=40, EQUAL=19, LESS=21, GTR=22)
+SLAT_ADVX, SLAT_SHIFTX, SLAT_SHIFTY, SLAT_ATTTO, SLAT_ATTX, SLAT_ATTY, SLAT_WITHX, SLAT_WITHY = 0, 20, 21, 2, 3, 4, 8, 9
 
 
 # ------------------------------------------------------------------ text form
@@ -24,6 +24,10 @@ def prog_to_text(prog):
         if a[0] == 'I': return 'I%d' % a[1]
         if a[0] == 'A': return 'A%d' % a[1]
         if a[0] == 'X': return 'X%d' % a[1]
+        if a[0] == 'Y': return 'Y%d' % a[1]
+        if a[0] == 'T': return 'T%d' % a[1]
+        if a[0] == 'P': return 'P%d_%d' % (a[1], a[2])
+        if a[0] == 'W': return 'W%d_%d' % (a[1], a[2])
         raise ValueError(a)
     def con(r):
         c = r.get('con')
@@ -66,6 +70,10 @@ def compile_action(rule, classes):
             elif a[0] == 'S': bc += [OP['PUT_SUBS8'], a[1] & 255, classes.get(a[2]), classes.get(a[3])]
             elif a[0] == 'A': bc += [OP['PUSH_SHORT'], (a[1] >> 8) & 255, a[1] & 255, OP['ATTR_SET'], SLAT_ADVX]
             elif a[0] == 'X': bc += [OP['PUSH_SHORT'], (a[1] >> 8) & 255, a[1] & 255, OP['ATTR_SET'], SLAT_SHIFTX]
+            elif a[0] == 'Y': bc += [OP['PUSH_SHORT'], (a[1] >> 8) & 255, a[1] & 255, OP['ATTR_SET'], SLAT_SHIFTY]
+            elif a[0] == 'T': bc += [OP['PUSH_BYTE'], a[1] & 255, OP['ATTR_SET_SLOT'], SLAT_ATTTO]
+            elif a[0] == 'P': bc += [OP['PUSH_SHORT'], (a[1] >> 8) & 255, a[1] & 255, OP['ATTR_SET'], SLAT_ATTX, OP['PUSH_SHORT'], (a[2] >> 8) & 255, a[2] & 255, OP['ATTR_SET'], SLAT_ATTY]
+            elif a[0] == 'W': bc += [OP['PUSH_SHORT'], (a[1] >> 8) & 255, a[1] & 255, OP['ATTR_SET'], SLAT_WITHX, OP['PUSH_SHORT'], (a[2] >> 8) & 255, a[2] & 255, OP['ATTR_SET'], SLAT_WITHY]
             elif a[0] == 'D': deleted = True
         if deleted:
             bc += [OP['DELETE']]
@@ -228,6 +236,6 @@ def base_info(data):
     return ng, adv
 
 
-def build_font(base_data, prog):
+def build_font(base_data, prog, n_subst=None):
     ng, _ = base_info(base_data)
-    return replace_table(base_data, b'Silf', compile_silf(prog, ng - 1))
+    return replace_table(base_data, b'Silf', compile_silf(prog, ng - 1, n_subst))
